@@ -6,6 +6,7 @@ import (
 	"fmt"
 	"net/http"
 	"regexp"
+	"strings"
 	"sync"
 	"time"
 
@@ -62,6 +63,7 @@ func buildC08Inband(tier string) sim.Scenario {
 			}
 		}
 		sdp = spropRe.ReplaceAllString(sdp, "")
+		sdp = strings.Replace(sdp, "a=fmtp:96\n", "a=fmtp:96 profile-id=1\n", 1) // H.265: keep the fmtp line well-formed
 		s = media.NewStream("/live/a", sdp)
 		media.Regist(s)
 		if len(s.Video.Sps) != 0 {
@@ -177,8 +179,12 @@ func buildC08Inband(tier string) sim.Scenario {
 		vm := s.Video
 		want := map[string][]byte{"sps": psets[len(psets)-2], "pps": psets[len(psets)-1]}
 		if !bytes.Equal(vm.Sps, want["sps"]) || !bytes.Equal(vm.Pps, want["pps"]) || (cdc == oracle.H265 && !bytes.Equal(vm.Vps, psets[0])) {
-			w.Fail("C08/stream-params", "after the in-band parameter sets were published the stream's video metadata does not hold them (sps %d bytes, pps %d bytes, vps %d bytes)", len(vm.Sps), len(vm.Pps), len(vm.Vps))
+			w.Fail("C08/stream-params", "codec %d, %d early slices: after the in-band parameter sets were published the stream's video metadata does not hold them (sps %d bytes, pps %d bytes, vps %d bytes)", cdc, early, len(vm.Sps), len(vm.Pps), len(vm.Vps))
 			return
+		}
+		isPset := map[string]bool{}
+		for _, ps := range psets {
+			isPset[string(ps)] = true
 		}
 		nalIdx, auIdx := map[string]int{}, map[string]int{}
 		for i, e := range pk {
@@ -222,6 +228,9 @@ func buildC08Inband(tier string) sim.Scenario {
 						return
 					}
 					for _, n := range t.NALs {
+						if isPset[string(n)] { // a parameter set sent in-band may also be passed on as a unit of its own
+							continue
+						}
 						i, ok := nalIdx[string(n)]
 						if !ok {
 							w.Fail("C08/unit-mismatch", "viewer %d: video tag %d carries a %d-byte unit that is no sent slice", v, k, len(n))
